@@ -579,6 +579,42 @@ fn eval(a: &[String]) -> String {
       }
       out
     }
+    "lists2_scan" => {
+      // weeks of months, days of weeks (civil and lunar), months of sexagenary years over 2022..2025
+      use tyme4rs::tyme::lunar::{LunarYear, LunarWeek};
+      use tyme4rs::tyme::sixtycycle::SixtyCycleYear;
+      let mut out = "NONE".to_string();
+      'scan: for y in 2022isize..=2025 {
+        for start in 0..7usize {
+          for m in 1..=12usize {
+            let mon = SolarMonth::from_ym(y, m);
+            let ws = mon.get_weeks(start);
+            if ws.len() != mon.get_week_count(start) { out = format!("civil month {}-{} start {}: {} weeks listed", y, m, start, ws.len()); break 'scan; }
+            for (k, w) in ws.iter().enumerate() {
+              let f = SolarWeek::from_ym(y, m, k, start).get_first_day();
+              let ds = w.get_days();
+              if w.get_index() != k || ds.len() != 7 || ds.iter().enumerate().any(|(j, d)| d.subtract(f) != j as isize) { out = format!("civil month {}-{} start {} week {}", y, m, start, k); break 'scan; }
+            }
+          }
+          for mon in LunarYear::from_year(y).get_months() {
+            let ws = mon.get_weeks(start);
+            if ws.len() != mon.get_week_count(start) { out = format!("lunar month {} {} start {}: {} weeks listed", y, mon.get_month_with_leap(), start, ws.len()); break 'scan; }
+            for (k, w) in ws.iter().enumerate() {
+              let f = LunarWeek::from_ym(y, mon.get_month_with_leap(), k, start).get_first_day().get_solar_day();
+              let ds = w.get_days();
+              if w.get_index() != k || ds.len() != 7 || ds.iter().enumerate().any(|(j, d)| d.get_solar_day().subtract(f) != j as isize) { out = format!("lunar month {} {} start {} week {}", y, mon.get_month_with_leap(), start, k); break 'scan; }
+            }
+          }
+        }
+        let sy = SixtyCycleYear::from_year(y);
+        let ms = sy.get_months();
+        let f = sy.get_first_month();
+        if ms.len() != 12 || ms.iter().enumerate().any(|(k, m)| m.get_sixty_cycle().get_index() != f.next(k as isize).get_sixty_cycle().get_index() || m.get_index_in_year() != k) {
+          out = format!("months of sexagenary year {}", y); break 'scan;
+        }
+      }
+      out
+    }
     "fortune_scan" => {
       // decade / yearly fortunes of births on every 3rd day of 2000-2001 (both genders): ages, years and pillars against the rule
       use tyme4rs::tyme::eightchar::ChildLimit;
